@@ -73,7 +73,23 @@ MkDec(m) == [op |-> "dec", m |-> m, ev |-> "-", k |-> "drop", next |-> 0,
 
 \* inputs and draw outcomes of one step
 NoChoice == [to |-> NONE, lim |-> 0, va |-> 0, vb |-> 0,
-             timeout |-> <<0, 0>>, duration |-> <<0, 0>>, batch |-> <<>>, t |-> 0]
+             timeout |-> <<0, 0>>, duration |-> <<0, 0>>, batch |-> <<>>, t |-> 0, vec |-> <<>>]
+
+\* Lazily synthesised transition tables: a vector <<T(LAZY, 0)>> stands for "not chosen yet". The
+\* first time a transition() consults it, the step chooses the real vector (c.vec) from
+\* EntryChoices and installs it in the configuration, so that TLC quantifies over all tables of
+\* the family but only materialises the entries a bounded history can observe.
+LAZY == -9
+IsLazy(v) == v # <<>> /\ v[1][1] = LAZY
+EntryChoices(n) ==
+  {<<>>, <<T(END, 16)>>, <<T(SIGNAL, 16)>>}
+  \cup {<<T(s, 16)>> : s \in 0..(n - 1)}
+  \cup {<<T(s, 8)>> : s \in 0..(n - 1)}
+  \cup {<<T(0, 8), T(n - 1, 8)>> : x \in {1} \cap (IF n > 1 THEN {1} ELSE {})}
+\* the configuration with the vector of (machine m, state s, event ev) set to v
+Install(S, m, s, ev, v) ==
+  [S EXCEPT !.C.M[m + 1].states[s + 1].trans =
+     [e \in DOMAIN @ |-> IF e = ev THEN v ELSE @[e]]]
 
 ---------------------------------------------------------------------------
 \* hook lines
@@ -255,18 +271,20 @@ DoTrans(S, c) ==
   IN IF r.state = END
      THEN [S |-> Complete(S1, m, "U", f.k), lines |-> <<TrLine(m, f.ev, END, ENDED)>>]
      ELSE
-       LET v  == Vec(StateOf(S, m, r.state), f.ev)
+       LET v0 == Vec(StateOf(S, m, r.state), f.ev)
+           v  == IF IsLazy(v0) THEN c.vec ELSE v0
+           Sx == IF IsLazy(v0) THEN Install(PopS(S), m, r.state, f.ev, c.vec) ELSE PopS(S)
            to == IF v = <<>> THEN NONE ELSE c.to
        IN CASE to = NONE ->
-                 [S |-> Complete(S1, m, "U", f.k),
+                 [S |-> Complete(Sx, m, "U", f.k),
                   lines |-> <<TrLine(m, f.ev, r.state, NONE)>>]
             [] to = END ->
-                 [S |-> Complete(SetRt(S1, m, [r EXCEPT !.state = END]), m, "C", f.k),
+                 [S |-> Complete(SetRt(Sx, m, [r EXCEPT !.state = END]), m, "C", f.k),
                   lines |-> <<TrLine(m, f.ev, r.state, END)>>]
             [] to = SIGNAL ->
-                 [S |-> Complete([S1 EXCEPT !.sig = NewSig(S.sig, m)], m, "U", f.k),
+                 [S |-> Complete([Sx EXCEPT !.sig = NewSig(S.sig, m)], m, "U", f.k),
                   lines |-> <<TrLine(m, f.ev, r.state, SIGNAL)>>]
-            [] OTHER -> DoRegular(S1, f, to, c)
+            [] OTHER -> DoRegular(Sx, f, to, c)
 
 \* would the tail of the transition on top of the stack schedule an action?
 AfterAllow(S) == LET f == Top(S) IN IF f.via THEN S.slot[f.m + 1].kind = "None" ELSE TRUE
@@ -346,8 +364,10 @@ TransAdmissible(S, c) ==
   LET f == Top(S)
       r == Rt(S, f.m)
   IN IF r.state = END THEN TRUE
-     ELSE LET v == Vec(StateOf(S, f.m, r.state), f.ev)
-          IN IF v = <<>> THEN TRUE
+     ELSE LET v0 == Vec(StateOf(S, f.m, r.state), f.ev)
+              v  == IF IsLazy(v0) THEN c.vec ELSE v0
+          IN IF IsLazy(v0) /\ c.vec \notin EntryChoices(Len(MachOf(S, f.m).states)) THEN FALSE
+             ELSE IF v = <<>> THEN TRUE
              ELSE IF c.to \notin Outcomes(v) THEN FALSE
              ELSE IF c.to < 0 THEN TRUE
              ELSE LET nst == StateOf(S, f.m, c.to)
@@ -375,17 +395,19 @@ TrChoices(S) ==
   LET f == Top(S)
       r == Rt(S, f.m)
   IN IF r.state = END THEN {NoChoice}
-     ELSE LET v == Vec(StateOf(S, f.m, r.state), f.ev)
-          IN IF v = <<>> THEN {NoChoice}
+     ELSE LET v0 == Vec(StateOf(S, f.m, r.state), f.ev)
+              Vs == IF IsLazy(v0) THEN EntryChoices(Len(MachOf(S, f.m).states)) ELSE {v0}
+          IN UNION { IF v = <<>> THEN {[NoChoice EXCEPT !.vec = v]}
              ELSE UNION {
-               IF to < 0 THEN {[NoChoice EXCEPT !.to = to]}
+               IF to < 0 THEN {[NoChoice EXCEPT !.to = to, !.vec = v]}
                ELSE LET nst == StateOf(S, f.m, to)
                         Ls == IF r.state # to /\ HasLimit(nst.action) THEN nst.action.limit.vals ELSE {0}
                         As == IF nst.ca.on /\ ~nst.ca.copy /\ ~IsNoDist(nst.ca.dist) THEN nst.ca.dist.vals ELSE {0}
                         Bs == IF nst.cb.on /\ ~nst.cb.copy /\ ~IsNoDist(nst.cb.dist) THEN nst.cb.dist.vals ELSE {0}
-                    IN {[NoChoice EXCEPT !.to = to, !.lim = l, !.va = a, !.vb = b] :
+                    IN {[NoChoice EXCEPT !.to = to, !.lim = l, !.va = a, !.vb = b, !.vec = v] :
                           l \in Ls, a \in As, b \in Bs}
                : to \in Outcomes(v)}
+             : v \in Vs }
 
 AfterChoices(S) ==
   LET f == Top(S)
